@@ -378,7 +378,7 @@ def run(run):
                 "added twice to one memory store / sink under every ordered pair of version arguments")
     run.bound = {"types": len(cases), "id_classes": list(IDS), "version_arguments": VERSIONS, "entry_points": 19}
     run.assumptions += ["minimal instances from the frozen spec model", "stix2.parse(content, allow_custom, version=version) is the reference (C02/C03 judge the parser itself)"]
-    run.pmap(run_case, cases)
+    run.pmap(run_case, cases, order_independent=True)
     run.part.sample({"content_version": "2.0", "key": "objects:identity", "id_class": "uuid1", "version": "2.1", "entry": "MemoryStore.add(version=)",
                      "expect": "v21.Identity (the 2.0-style dict is also a valid 2.1 identity; UUIDv1 is legal in 2.1)"})
     run.part.sample({"content_version": "2.1", "key": "objects:campaign", "id_class": "nil", "version": "2.1", "entry": "FileSystemSource.get(version=)", "expect": "refused, as the direct parse refuses a non-RFC-4122 UUID"})
